@@ -34,7 +34,7 @@ Definition model_src_env_out : string :=
 Definition model_src_listAllFiles : string :=
   "func(dir string) ([]string, error) { var files []string walk := func(p string, d fs.DirEntry, err error) error { if err != nil { return err } if d.IsDir() { name := d.Name() if name == "".git"" { return filepath.SkipDir } return nil } name := d.Name() switch name { case "".gitignore"", ""COPYING"", ""tags"", "".DS_Store"": return nil } if strings.HasSuffix(name, "".caco3"") { return nil } typ := d.Type() if typ.IsRegular() || typ.Type() == fs.ModeSymlink { files = append(files, p) } return nil } if err := filepath.WalkDir(dir, walk); err != nil { return nil, err } return files, nil }".
 Definition model_src_ignore : string :=
-  "{ for _, i := range ignoreDirs { if strings.HasPrefix(name, i) { return true } } for _, i := range ignores { matched, err := path.Match(i, name) if err != nil { if !bads[i] { log.Printf(""bad ignore pattern: %q: %s"", i, err) } bads[i] = true continue } if matched { return true } } return false }".
+  "{ for _, i := range ignoreDirs { if i == """" || strings.HasPrefix(name, i+""/"") { return true } } for _, i := range ignores { matched, err := path.Match(i, name) if err != nil { if !bads[i] { log.Printf(""bad ignore pattern: %q: %s"", i, err) } bads[i] = true continue } if matched { return true } } return false }".
 Definition model_src_select : string :=
   "{ var matches []string if strings.HasSuffix(sel, ""/**"") || sel == ""**"" { var dir string if sel == ""**"" { dir = env.src(p) } else { dir = env.src(makeRelPath(p, strings.TrimSuffix(sel, ""/**""))) } files, err := listAllFiles(dir) if err != nil { return nil, errcode.Annotatef(err, ""list all files %q"", sel) } matches = files } else { glob, err := filepath.Glob(env.src(makeRelPath(p, sel))) if err != nil { return nil, errcode.Annotatef(err, ""glob %q"", sel) } matches = glob } if len(matches) == 0 { return nil, errcode.InvalidArgf(""%q select no files"", sel) } for _, match := range matches { rel, err := filepath.Rel(env.srcDir, match) if err != nil { return nil, errcode.Annotatef( err, ""get relative path for %q"", match, ) } if ignore(rel) { continue } name := filepath.ToSlash(rel) m[name] = true } }".
 
